@@ -44,6 +44,8 @@ type World struct {
 	usedContracts map[string]*Contract
 	topContract   *Contract
 	splits        []Term
+	loopTargets   map[string][]loopTarget
+	loopWhole     map[string]bool
 	axioms        []axiomLine
 	axiomSrc      []string
 	replay        *replayPlan
@@ -404,10 +406,18 @@ type State struct {
 	heap  map[string]Term
 	cells map[cellID]Term
 	epoch int
+	// alts: after a join of states with different havoc epochs, the value
+	// of a heap key that none of them touched is the ite over their bases
+	alts []epochAlt
+}
+
+type epochAlt struct {
+	cond  Term
+	epoch int
 }
 
 func (s *State) clone() *State {
-	n := &State{cond: s.cond, epoch: s.epoch, heap: make(map[string]Term, len(s.heap)), cells: make(map[cellID]Term, len(s.cells))}
+	n := &State{cond: s.cond, epoch: s.epoch, alts: s.alts, heap: make(map[string]Term, len(s.heap)), cells: make(map[cellID]Term, len(s.cells))}
 	for k, v := range s.heap {
 		n.heap[k] = v
 	}
@@ -464,9 +474,22 @@ func (w *World) hget(st *State, key string) Term {
 	if t, ok := st.heap[key]; ok {
 		return t
 	}
-	t := w.baseHeap(key, st.epoch)
+	t := w.implicitHeap(st, key)
 	st.heap[key] = t
 	return t
+}
+
+// implicitHeap is the value of a key the state has not touched yet.
+func (w *World) implicitHeap(st *State, key string) Term {
+	if len(st.alts) == 0 {
+		return w.baseHeap(key, st.epoch)
+	}
+	var conds, vals []Term
+	for _, a := range st.alts {
+		conds = append(conds, a.cond)
+		vals = append(vals, w.baseHeap(key, a.epoch))
+	}
+	return w.sc.define(key, iteChain(conds, vals))
 }
 
 func (w *World) hset(st *State, key string, v Term) {
@@ -479,6 +502,7 @@ func (w *World) havocAll(st *State) {
 	oldAlloc := w.hget(st, allocKey)
 	w.epochN++
 	st.epoch = w.epochN
+	st.alts = nil
 	st.heap = map[string]Term{}
 	na := w.hget(st, allocKey)
 	w.sc.assume(le(oldAlloc, na))
@@ -509,8 +533,8 @@ func (w *World) mergeStates(name string, ins []*State) *State {
 	out := &State{heap: map[string]Term{}, cells: map[cellID]Term{}}
 	out.cond = w.sc.define("bc!"+name, or(conds...))
 	sameEpoch := true
-	for _, s := range ins[1:] {
-		if s.epoch != ins[0].epoch {
+	for _, s := range ins {
+		if s.epoch != ins[0].epoch || len(s.alts) > 0 {
 			sameEpoch = false
 		}
 	}
@@ -519,6 +543,13 @@ func (w *World) mergeStates(name string, ins []*State) *State {
 	} else {
 		w.epochN++
 		out.epoch = w.epochN
+		for _, s := range ins {
+			if len(s.alts) > 0 {
+				out.alts = append(out.alts, s.alts...)
+			} else {
+				out.alts = append(out.alts, epochAlt{s.cond, s.epoch})
+			}
+		}
 	}
 	keys := map[string]bool{}
 	for _, s := range ins {
@@ -537,7 +568,7 @@ func (w *World) mergeStates(name string, ins []*State) *State {
 			if v, ok := s.heap[k]; ok {
 				vals = append(vals, v)
 			} else {
-				vals = append(vals, w.baseHeap(k, s.epoch))
+				vals = append(vals, w.implicitHeap(s, k))
 			}
 		}
 		out.heap[k] = w.sc.define(k, iteChain(conds, vals))
@@ -603,6 +634,7 @@ type Obligation struct {
 	Values   []string
 	ValNames []string
 	Result   *SolverResult
+	Clause   *Clause
 	Relaxed  *SolverResult
 	Pos      string
 }
